@@ -147,7 +147,7 @@ func (v *Verifier) VerifyFunc(key string, c *Contract, class map[string]string) 
 		inputs: map[string]Term{}, trustedUsed: map[string]bool{}, callees: map[string]bool{}, subFuns: map[string]bool{}, subCodes: map[string]int{}, adtTypes: map[string]types.Type{}}
 	if fn.Pkg != nil {
 		switch fn.Pkg.Pkg.Name() {
-		case "sets", "sync2", "maps":
+		case "sets", "sync2", "maps", "chans":
 			e.useAllocID = true
 		}
 	}
@@ -292,6 +292,7 @@ func (v *Verifier) VerifyFunc(key string, c *Contract, class map[string]string) 
 	for _, r := range c.Requires {
 		st.Assume(e.evalBool(r.E, se))
 	}
+	e.entryHeld(st)
 	e.entry = st.Clone()
 	// vacuity guard: the precondition is satisfiable
 	cov := &Obligation{Name: e.funcName + "/cover[requires]", Kind: "cover", Func: e.funcName, Assume: append([]Term(nil), st.pc...), Goal: True, Ctx: ctx, Cover: true}
@@ -321,6 +322,7 @@ func (v *Verifier) VerifyFunc(key string, c *Contract, class map[string]string) 
 			e.obligation(st, "panics_iff", "return=>!cond", Not(cond), "a normal return requires the panic condition to be false")
 		}
 		if c.Mode == "atomic" {
+			e.lockBalance(st)
 			// sequential specification at the linearization action
 			lp := 0
 			if l := c.Extra["linpoint"]; len(l) > 0 {
